@@ -27,6 +27,15 @@
 (*                 j * (c div k) cycles (1 per group when c > 50) are done,   *)
 (*                 with ETA = floor(elapsed * (k / j - 1)); the closing        *)
 (*                 message comes after ALL c cycles and n steps.              *)
+(*                 ParallelTempering.run_for(T, swap_interval) times one      *)
+(*                 first cycle (which is run whatever the budget), takes       *)
+(*                 N = max(1, int(2 s / that time)) cycles per batch, starts a  *)
+(*                 batch only while the deadline t0 + T is ahead, and after     *)
+(*                 each batch writes the time remaining floor(deadline - now)   *)
+(*                 as h:mm:ss (as built also past the deadline: 1.011 s over    *)
+(*                 reads -1:59:58); the closing message comes only once the     *)
+(*                 deadline has passed, after 1 + (batches x N) cycles, every    *)
+(*                 chain having grown by cycles x swap_interval.                *)
 (*                                                                         *)
 (* Events come from real calls whose standard output is captured write by   *)
 (* write, under a simulated clock (integer milliseconds in the log).        *)
@@ -37,7 +46,10 @@ VARIABLES l, st
 \* st: [call, m, disp, t0, k, steps, dl]   call = "" between runs;  k = messages seen so far in this run;  steps = steps reported last
 vars == <<l, st>>
 Ev == Log[l]
-Idle == [call |-> "", m |-> 0, disp |-> FALSE, t0 |-> 0, k |-> 0, steps |-> 0, dl |-> 0, fin |-> FALSE, si |-> 1]
+Idle == [call |-> "", m |-> 0, disp |-> FALSE, t0 |-> 0, k |-> 0, steps |-> 0, dl |-> 0, fin |-> FALSE, si |-> 1, cms |-> 1]
+\* run_for of the tempering object: cycles per batch from the (simulated) duration of one cycle, cms milliseconds
+PtBatch == IF 2000 \div st.cms >= 1 THEN 2000 \div st.cms ELSE 1
+Floor1000(d) == IF d >= 0 THEN d \div 1000 ELSE -((-d + 999) \div 1000)
 PtCycles == st.m \div st.si
 PtGroups == IF PtCycles > 50 THEN PtCycles ELSE 50
 PtPerGroup == IF PtCycles > 50 THEN 1 ELSE PtCycles \div 50
@@ -84,19 +96,28 @@ Valid ==
                           /\ Ev.pct = (100 * (st.k + 1)) \div PtGroups
                           /\ Ev.cyc = (st.k + 1) * PtPerGroup
                           /\ EtaOK(Ev.eta, Ev.t - st.t0, st.k + 1, PtGroups)
-    [] Ev.ev = "PtDone" -> /\ st.call = "pt_advance" /\ ~st.fin
-                           /\ st.k = PtGroups /\ Ev.cyc = PtCycles /\ Ev.steps = st.m
+    [] Ev.ev = "PtDone" -> /\ st.call \in {"pt_advance", "pt_run_for"} /\ ~st.fin
+                           /\ IF st.call = "pt_advance"
+                              THEN st.k = PtGroups /\ Ev.cyc = PtCycles /\ Ev.steps = st.m
+                              ELSE /\ Ev.cyc = 1 + st.k * PtBatch /\ Ev.steps = Ev.cyc * st.si
+                                   /\ Ev.t >= st.dl - 1                                  \* only once the budget is used up
+    [] Ev.ev = "PtCount" -> /\ st.call = "pt_run_for" /\ ~st.fin
+                            /\ Ev.cyc = 1 + (st.k + 1) * PtBatch
+                            /\ Ev.t - PtBatch * st.cms < st.dl + 1                        \* the batch was started before the deadline
+                            /\ \E sec \in {Floor1000(st.dl - Ev.t), Floor1000(st.dl - Ev.t - 1), Floor1000(st.dl - Ev.t + 1)} :
+                                   HmsOK(Ev.h, Ev.mi, Ev.s, sec)
     [] Ev.ev = "End" -> /\ st.call # ""
-                        /\ Ev.added = (IF st.call = "run_for" THEN st.steps ELSE st.m) \/ (st.call = "run_for" /\ ~st.disp)
+                        /\ Ev.added = (IF st.call \in {"run_for", "pt_run_for"} THEN st.steps ELSE st.m) \/ (st.call = "run_for" /\ ~st.disp)
                         /\ (st.disp => st.fin)
                         /\ (~st.disp => st.k = 0)
     [] OTHER -> FALSE      \* "Other": text that is none of the messages; any message while the display is off
 NewSt ==
   CASE Ev.ev = "Begin" -> [call |-> Ev.call, m |-> Ev.m, disp |-> Ev.display, t0 |-> Ev.t, k |-> 0, steps |-> 0, dl |-> Ev.t + Ev.m, fin |-> FALSE,
-                           si |-> IF "si" \in DOMAIN Ev THEN Ev.si ELSE 1]
+                           si |-> IF "si" \in DOMAIN Ev THEN Ev.si ELSE 1, cms |-> IF "cms" \in DOMAIN Ev THEN Ev.cms ELSE 1]
     [] Ev.ev = "Pct" -> [st EXCEPT !.k = @ + 1]
     [] Ev.ev = "PtPct" -> [st EXCEPT !.k = @ + 1]
-    [] Ev.ev = "PtDone" -> [st EXCEPT !.fin = TRUE]
+    [] Ev.ev = "PtDone" -> [st EXCEPT !.fin = TRUE, !.steps = Ev.steps]
+    [] Ev.ev = "PtCount" -> [st EXCEPT !.k = @ + 1]
     [] Ev.ev = "Count" -> [st EXCEPT !.k = @ + 1, !.steps = Ev.steps]
     [] Ev.ev = "Iter" -> [st EXCEPT !.k = @ + 1, !.fin = (Ev.plain /\ st.k > 0)]
     [] Ev.ev = "Final" -> [st EXCEPT !.fin = TRUE]
